@@ -136,6 +136,57 @@ func c09TwinOne(t *testing.T, run *h.Run, c c09Case) {
 	})
 }
 
+// c09DeleteJudge: "it deletes at most maxUnavailable pods for updating" on one sync.
+func c09DeleteJudge(deleted []bool, mu, mf int) (string, string) {
+	n := 0
+	for _, d := range deleted {
+		if d {
+			n++
+		}
+	}
+	if n > mu {
+		return "C09/deletes: more than maxUnavailable pods deleted for updating in one sync", fmt.Sprintf("%d > %d", n, mu)
+	}
+	return "", ""
+}
+
+// c09DeleteLattice: every sequence of the node classes that enter the deletion arithmetic differently, for 1..maxN
+// nodes, through the real ManageDeployment and (up to 3 nodes) a real replica-set sync.
+func c09DeleteLattice(t *testing.T, run *h.Run, maxN int) {
+	core := []int{cNoPod, cUpAvail, cOldAvail, cOldUnavail, cOldFailed, cStuckUnsched}
+	var seqs, small [][]int
+	for n := 1; n <= maxN; n++ {
+		forEachSeq(n, len(core), func(seq []int) {
+			m := make([]int, len(seq))
+			for i, x := range seq {
+				m[i] = core[x]
+			}
+			seqs = append(seqs, m)
+			if n <= 3 {
+				small = append(small, m)
+			}
+		})
+	}
+	if !c09DeleteHelper(t, run, seqs) {
+		small = seqs
+		if maxN > 4 {
+			small = nil
+			for _, q := range seqs {
+				if len(q) <= 4 {
+					small = append(small, q)
+				}
+			}
+		}
+	}
+	cfgs := c03Configs()
+	parallel(len(small), func(i int) {
+		for _, cfg := range cfgs {
+			c03TwinEval(t, run, "C09", small[i], cfg, c09DeleteJudge)
+		}
+		run.Count("twin_reconciles", int64(len(cfgs)))
+	})
+}
+
 // MonC09 — world monitor: per-sync creation bound, per-sync update-deletion bound, spacing of mutating syncs.
 // c09Spacing: spacing of mutating syncs of one replica set (the memory is part of the state).
 func c09Spacing(c *w.MonCtx, v *w.SyncView, name string, mut bool) {
@@ -243,6 +294,11 @@ func TestC09(t *testing.T) {
 			run.Count("twin_reconciles", 1)
 		}
 	})
+	dn := 5
+	if h.Thorough() {
+		dn = 6
+	}
+	c09DeleteLattice(t, run, dn)
 	if run.Counter("ramp_reached") == 0 {
 		fmt.Println("HARNESS ERROR: ramp never reached (vacuous)")
 		exit(2)
@@ -283,5 +339,5 @@ func TestC09(t *testing.T) {
 	run.Cov["evaluations"] = run.Counter("helper_calls") + run.Counter("twin_reconciles") + run.Counter("transitions")
 	run.Sample(cases[len(cases)/2])
 	run.Assumptions = []string{"all instants are whole seconds (the stored one-second resolution is then exact)", "timed explorations are bounded by a horizon after which states are not expanded"}
-	exit(run.Finish(fmt.Sprintf("lattice of %d cases (nodes lacking a pod 0..N x elapsed time {0, I-1, I, I+1, 2I, 10I} x interval {1s,60s} x increase {1,2,50%%,100%%} x maxParallelPodCreation {1,2,250} x Active condition) through the real ManageDeployment and a Reconcile-level twin; timed BFS (ticks of 1, 5, 10 s always enabled, horizon %v) of a first deployment and a rolling update with the per-sync and spacing monitors; non-trivial = distinct (creates, ramp)", len(cases), horizon)))
+	exit(run.Finish(fmt.Sprintf("lattice of %d cases (nodes lacking a pod 0..N x elapsed time {0, I-1, I, I+1, 2I, 10I} x interval {1s,60s} x increase {1,2,50%%,100%%} x maxParallelPodCreation {1,2,250} x Active condition) through the real ManageDeployment and a Reconcile-level twin; deletion lattice: every sequence of 6 node classes (no pod, up to date, outdated available / not ready / failed-and-held, stuck) for 1..5 nodes (thorough 6) x 35 maxUnavailable / maxPodSchedulerFailure / stale-status settings; timed BFS (ticks of 1, 5, 10 s always enabled, horizon %v) of a first deployment and a rolling update with the per-sync and spacing monitors; non-trivial = distinct (creates, ramp)", len(cases), horizon)))
 }
